@@ -100,6 +100,21 @@ func TestVerifC14Wiring(t *testing.T) {
 	}
 
 	for i := 0; i < n; i++ {
-		emit("generated", c14GenSet(root.Fork(uint64(i))))
+		r := root.Fork(uint64(i))
+		c := c14GenSet(r)
+
+		// what this stream is for: the operation mode reaches the factory — a proxy-mode set of good rules, one
+		// of which lacks forward_to
+		if r.Intn(4) == 0 {
+			c.Proxy, c.Version = true, config2.CurrentRuleSetVersion
+
+			for j := range c.Rules {
+				c.Rules[j] = c14GenGoodRule(r, true, c.Def)
+			}
+
+			c.Rules[r.Intn(len(c.Rules))].Backend = false
+		}
+
+		emit("generated", c)
 	}
 }
